@@ -247,6 +247,11 @@ def build_class(prog, rec, W, decorated=True):
                 d = prog['ins'][s['i']]
                 if d['kind'] == 'property':
                     v = getattr(inst, 'in%d' % s['i'])
+                elif s.get('usekw') == 'both':
+                    items = [('a', V.build(s['a'])), ('b', V.build(s['b']))]
+                    if s.get('kwrev'):
+                        items.reverse()
+                    v = getattr(inst, 'in%d' % s['i'])(**dict(items))
                 elif s.get('usekw'):
                     v = getattr(inst, 'in%d' % s['i'])(V.build(s['a']), b=V.build(s['b']))
                 else:
@@ -437,23 +442,33 @@ def assign_sids(prog):
     return prog
 
 
+def captured_view(decl, s):
+    """The part of a call the key may depend on: list of tags and argument descriptions (harness model)."""
+    cap = decl.get('capture', 'all')
+    if decl['kind'] == 'property':
+        return []
+    style = 'both' if s.get('usekw') == 'both' else ('kw' if s.get('usekw') else 'pos')
+    a_tag = 'a-kw' if style == 'both' else 'a-pos'
+    b_tag = 'b-pos' if style == 'pos' else 'b-kw'
+    if cap == 'all':
+        return [a_tag, s['a'], b_tag, s['b']]
+    if cap == 'pos1':
+        return [a_tag, s['a']]
+    if cap == 'name_b':
+        return [s['b']] if style != 'pos' else []
+    if cap == 'pos1_name_b':
+        return [a_tag, s['a'], b_tag, s['b']]
+    return []
+
+
 def model_key(prog, s):
     """Harness model of input identity: alias (+ resolver name) and the captured arguments."""
     from jsonpickle import encode
     d = prog['ins'][s['i']]
-    cap = d.get('capture', 'all')
     key = [d['alias'] + ('.' + s['name'] if d.get('resolver') else '')]
-    if d['kind'] == 'property':
-        return tuple(key)
-    a, b, kw = V.build(s['a']), V.build(s['b']), bool(s.get('usekw'))
-    if cap == 'all':
-        key += [encode(a), 'kw' if kw else 'pos', encode(b)]
-    elif cap == 'pos1':
-        key += [encode(a)]
-    elif cap == 'name_b':
-        key += [encode(b)] if kw else []
-    elif cap == 'pos1_name_b':
-        key += [encode(a), 'kw' if kw else 'pos', encode(b)]
+    for part in captured_view(d, s):
+        key.append(part if isinstance(part, str) and part in ('a-kw', 'a-pos', 'b-kw', 'b-pos') else
+                   ('v', encode(V.build(part))))
     return tuple(key)
 
 
@@ -528,7 +543,7 @@ def in_step(draw, ins, values, behs=('ret', 'ret', 'ret', 'raise', 'nested')):
     if d['kind'] == 'property':
         a, b, usekw = None, None, False
     else:
-        a, b, usekw = draw(values), draw(values), draw(st.booleans())
+        a, b, usekw = draw(values), draw(values), draw(st.sampled_from([False, False, True, True, 'both']))
     return dict(t='in', i=i, a=a, b=b, usekw=usekw, beh=draw(st.sampled_from(behs)), ret=draw(values),
                 name=draw(st.sampled_from(['n1', 'n2'])), exc=draw(st.sampled_from(['Err', 'Err', 'ValueError', 'KeyError'])))
 
